@@ -112,11 +112,12 @@ def slot_kind(ev_cfg_domains, v):
 
 
 class Ref:
-    def __init__(self, store, slot, path, shape, wrappers):
+    def __init__(self, store, slot, path, shape, wrappers, row=None):
         self.store, self.slot, self.path, self.shape, self.wrappers = store, slot, path, shape, tuple(wrappers)
+        self.row = row      # the constant row index of a scalar read (None for whole columns / per-row reads)
 
     def key(self):
-        return (self.store, self.slot, self.path, self.shape, self.wrappers)
+        return (self.store, self.slot, self.path, self.shape, self.wrappers, self.row)
 
     def __repr__(self):
         return "Ref(%s.%s -> %s %s %s)" % (self.store, self.slot, self.path or "<element>", self.shape, list(self.wrappers))
@@ -142,7 +143,7 @@ class ReaderWalk:
             shape = "series"
         else:
             shape = "series-const" if rowwise else "scalar"
-        self.refs.append(Ref(store, slot, path, shape, wrappers))
+        self.refs.append(Ref(store, slot, path, shape, wrappers, row=(idx if idx is not None and not idx.startswith("#") else None)))
         return True
 
     def rat(self, r: Rat, path, rowwise, wrappers):
